@@ -445,9 +445,11 @@ func (s *Scorch) Close() (err error) {
 	s.fireEvent(EventKindCloseStart, 0)
 
 	// signal to async tasks we want to close
+	verifPoint(s, "close_begin")
 	close(s.closeCh)
 	// wait for them to close
 	s.asyncTasks.Wait()
+	verifPoint(s, "close_tasks_done")
 	// now close the root bolt
 	if s.rootBolt != nil {
 		err = s.rootBolt.Close()
@@ -668,6 +670,7 @@ func (s *Scorch) prepareSegment(newSegment segment.Segment, ids []string,
 
 	introStartTime := time.Now()
 
+	verifPoint(s, "batch_send", introduction.id)
 	s.introductions <- introduction
 
 	// block until this segment is applied
@@ -675,9 +678,11 @@ func (s *Scorch) prepareSegment(newSegment segment.Segment, ids []string,
 	if err != nil {
 		return err
 	}
+	verifPoint(s, "batch_applied", introduction.id)
 
 	if introduction.persisted != nil {
 		err = <-introduction.persisted
+		verifPoint(s, "batch_persisted", introduction.id)
 	}
 
 	introTime := uint64(time.Since(introStartTime))
@@ -1098,6 +1103,7 @@ func (s *Scorch) CopyReader() index.CopyReader {
 			}
 			rv.parent.copyScheduled[fileName]++
 		}
+		verifCopy(s, "copy_start", rv)
 	}
 	s.rootLock.Unlock()
 	return rv
